@@ -135,6 +135,20 @@ func runC03(e *emitter, tier string, seed uint64) {
 		{"jsfunc-name-on", func(s string) templ.Component { return tmpl.JSFuncOn(s, "x") }},
 		{"jsfunc-name-inline", func(s string) templ.Component { return tmpl.JSFuncInline(s, "x") }},
 		{"jsonscript", func(s string) templ.Component { return templ.JSONScript("id", map[string]any{"v": s, s: []any{s}}) }},
+		// other script types share the body encoding
+		{"jsonscript-ld", func(s string) templ.Component {
+			return templ.JSONScript("id", map[string]any{"v": s, s: []any{s}}).WithType("application/ld+json")
+		}},
+		{"jsonscript-importmap", func(s string) templ.Component { return templ.JSONScript("id", []any{s}).WithType("importmap") }},
+		// history: the same function was called before with the same text as a JavaScript EXPRESSION; a Go string must still arrive as data
+		{"jsfunc-on-after-expr", func(s string) templ.Component {
+			_ = render(tmpl.JSFuncOn("console.log", templ.JSExpression(s)), bg)
+			return tmpl.JSFuncOn("console.log", s)
+		}},
+		{"jsfunc-inline-after-expr", func(s string) templ.Component {
+			_ = render(tmpl.JSFuncInline("console.log", templ.JSExpression(s)), bg)
+			return tmpl.JSFuncInline("console.log", s)
+		}},
 	}
 	posByName := map[string]pos{}
 	for _, p := range positions {
